@@ -8382,6 +8382,7 @@ class Text(SVGElement, GraphicObject, Transformable):
         self.font_stretch = s.font_stretch
         self.font_size = s.font_size
         self.line_height = s.line_height
+        self.path = copy(s.path) if s.path is not None else None
 
     def parse_font(self, font):
         """
